@@ -29,7 +29,25 @@ CORR_ONLY = ["rounding-level overshoot (bounded by K_OVER=256 eps*max|y|; worst 
 ASSUMPTIONS = ["unit factors x_dim/f_dim are compared on tables whose products with the factor are exact in double "
                "(float32 tables and factors): the model multiplies exactly, the C++ rounds each product",
                "query points are kept a relative margin >= 2^-30 away from the 1% extrapolation boundary"]
-TRUSTED = []
+TRUSTED = ["translators/constants.py (regenerates lean/LpModel/C01/Constants.lean from the anchored numeric literals of the current source before every lake build; a missing anchor falls back to the committed default and is recorded in notes.pre_build.anchor_missing)"]
+
+# ---------------------------------------------------------------------------------------------------
+# translator tie (DESIGN.md §4.5): the numeric literals of src/Numerics.cpp (Steffen coefficients, Locate) the model depends on
+# ---------------------------------------------------------------------------------------------------
+
+def _constants_translator(verif):
+    import importlib.util, os
+    spec = importlib.util.spec_from_file_location("lp_constants_tr", os.path.join(verif, "translators", "constants.py"))
+    m = importlib.util.module_from_spec(spec)
+    spec.loader.exec_module(m)
+    return m
+
+
+def pre_build(c):
+    """regenerate lean/LpModel/C01/Constants.lean from the repository under check (called by check.py with
+    the lake lock held, before `lake build`); a missing anchor is recorded, never an alarm"""
+    return _constants_translator(c["verif"]).regenerate("C01", c["repo"], c["lean"])
+
 
 K_VAL = 256        # value correspondence, in eps*max(|y_j|,|y_j+1|)*|pref|
 K_DER = 2048       # derivative correspondence, in eps*max|y|/h^k*|pref|
